@@ -67,10 +67,23 @@ _STATE = {}
 
 
 def plan(tier):
-    return {'shards': 16, 'budget_s': 25 if tier == 'quick' else 700}
+    return {'shards': 16, 'budget_s': 22 if tier == 'quick' else 330}
+
+
+def _cpu_spent():
+    t = os.times()
+    return t.user + t.system + t.children_user + t.children_system
+
+
+def out_of_time(rec):
+    """core's soft budget counts CPU seconds of the shard process itself; this check burns its CPU in forked
+    (and waited-for) children, so their CPU is counted as well.  Wall time stays capped by core (2.5 x budget)."""
+    return rec.out_of_time() or _cpu_spent() - _STATE.get('cpu0', 0.0) >= rec.budget_s
 
 
 def shard_setup(rec, tier):
+    _STATE['cpu0'] = _cpu_spent()
+    _STATE['rec'] = rec
     blobbook.self_check()
     boot.import_lbry()
     # import everything the children need BEFORE forking (no loop, no thread exists here)
@@ -107,14 +120,24 @@ def gen_cases(rng, tier, shard, nshards):
             case['prev'] = eps
             case['crash'] = pick_crash(rng, seed, nops, 'mixed', nprev)
         return case
+    def budget_gone():      # same sequence of cases for a seed, possibly cut short (also counts the children's CPU)
+        rec = _STATE.get('rec')
+        if rec is not None and out_of_time(rec):
+            rec.note('stopped_on_budget', True)
+            return True
+        return False
     if tier == 'quick':
         yield {'fam': 'one', 'seed': rng.getrandbits(40), 'nops': 4, 'profile': 'bulk%d' % BULK_NS[shard % len(BULK_NS)],
                'crash': None}
         for i in range(420):
+            if budget_gone():
+                return
             yield one([2, 3, 5, 8, 12, 16, 20, 25])
     else:
         yield {'fam': 'enum', 'seed': rng.getrandbits(40), 'nops': 3, 'profile': 'bulk%d' % BULK_NS[shard % len(BULK_NS)]}
         for i in range(4000):
+            if budget_gone():
+                return
             if i % 8 == 0:
                 c = one([4, 8, 12, 20, 30, 40])
                 c['fam'] = 'enum'
@@ -883,7 +906,7 @@ def execute(rec, case):
         for key in sorted(counts):
             kind, phase = key.rsplit('.', 1)
             for n in range(1, counts[key] + 1):
-                if rec.out_of_time():
+                if out_of_time(rec):
                     complete = False
                     break
                 run_one(rec, dict(base, crash=[kind, phase, n]))
